@@ -54,12 +54,15 @@ Silent(l, t, timeout) ==
    stale[l]: the timeout value link l still carries from the last scheduling decision (recorded finding: it
    is refreshed only by a selection, so before the first one, or while no client packet arrives, it lags
    behind the configured value); a teardown justified only by the stale value is reported separately. *)
-Pass(t, timeout, stale, torn, conn1) ==
+(* excusable: no scheduling decision has run since the timeout was last configured -- the only history in which the
+   per-link copy of the timeout can lag behind for the reason recorded as the known finding (the copy is refreshed
+   by every call of the selector).  A lagging copy in any other history is no explanation.                     *)
+Pass(t, timeout, stale, torn, conn1, excusable) ==
     /\ act' = "Pass"
     /\ \A l \in torn :
           \* only a link that has been silent for the timeout (or was rejected) -- never a routing penalty
           /\ \/ Silent(l, t, timeout)
-             \/ /\ stale[l] # timeout /\ Silent(l, t, stale[l])
+             \/ /\ excusable /\ stale[l] # timeout /\ Silent(l, t, stale[l])
                 /\ PrintT(<<"KNOWN-FINDING-HIT", "C08/Pass/stale-mirrored-timeout">>)
           \* retries at least 1 s apart before the first registration, at least 5 s apart afterwards
           /\ lastTry[l] # -1 => t - lastTry[l] >= (IF everUp[l] THEN MinGapLater ELSE MinGapInitial)
